@@ -12,7 +12,8 @@ def run(tier):
                      'returns of 2021-2023 (E3 prompt tree; quick d<=1 on 3 bases/year, d=0 on the others, thorough d<=2 on all); '
                      'distinct = outcome classes observed per engine/base')
     gen.explore(run, PID, tier)
-    e3.explore_all(run, PID, tier, quick_bases=('B0-single-wage', 'B2-investor', 'B6-nc'))
+    e3.explore_all(run, PID, tier, quick_bases=('B0-single-wage', 'B2-investor', 'B6-nc'),
+                   deep_thorough=((2023, 'B0-single-wage'),))     # every node costs 3-4 further solves here: two deviations on one tree only
     # one-line priority deviations of the attempt order (file-driven), in parallel over (base, line, first/last)
     names = ('B0-single-wage', 'B2-investor', 'B7-dense', 'B11-parent-foreign-dividends') if tier == 'quick' else [b.name for b in e3.BASES]
     items = [it for year in (2021, 2022, 2023) for b in e3.bases_for(year) if b.name in names for it in e3mon.boost_items(year, b)]
